@@ -186,7 +186,7 @@ def do_OP_WITHIN(vm: Any) -> None:
     >>> print(s == [b''])
     True
     """
-    v3, v2, v1 = [vm.pop_int() for i in range(3)]
+    v3, v2, v1 = [pop_check_bounds(vm) for i in range(3)]
     ok = v2 <= v1 < v3
     vm.append(vm.bool_to_script_bytes(ok))
 
